@@ -2,10 +2,18 @@
 
 package codex
 
-import "github.com/creack/pty"
+import (
+	"sync"
+
+	"github.com/creack/pty"
+)
 
 // VerifExecInit encodes an execution request exactly as NewExecTube does
 // (verification harness only).
 func VerifExecInit(usePty bool, cmd, term string, size *pty.Winsize) []byte {
 	return newExecInitMsg(usePty, cmd, term, size).ToBytes()
 }
+
+// VerifIdleExecTube returns an ExecTube as a client with an interactive
+// session holds it, with nothing attached but the lock that pauses its pipes.
+func VerifIdleExecTube() *ExecTube { return &ExecTube{lock: &sync.RWMutex{}} }
